@@ -2,6 +2,14 @@
 the evidence texts (rule, assumptions)."""
 
 PLAN = {
+    "C05": {
+        "quick": [
+            {"kind": "rapid", "test": "TestC05Extents", "checks": 100000},
+        ],
+        "thorough": [
+            {"kind": "rapid", "test": "TestC05Extents", "checks": 400000, "shards": 16},
+        ],
+    },
     "C06": {
         "quick": [
             {"kind": "rapid", "test": "TestC06Wrap", "checks": 100000},
@@ -153,6 +161,7 @@ PLAN = {
 }
 
 RULES = {
+    "C05": "rapid: route (Sprintf, Fprintf, Sprint, Fprint, StringBuilder.Printf, SafePrinter.Printf) x 1-3 directives with flags/width/precision and a verb valid for its operand class (string verbs v s q x X, integer verbs v d b o O x X c q U, float verbs, bool verbs) x operands that are leaves or containers of leaves to depth 2 ([]interface{}, [2]interface{}, struct with interface fields, single-entry map[interface{}]interface{} incl. its key) x configuration (every subset of the registrable pool, registry reset per case through the hook). Leaves: plain and named basic kinds, named kinds with String/Error methods, SafeString/SafeInt/SafeUint/SafeFloat, SafeValue-marked kinds, registrable kinds, Safe(x), Unsafe(x), untyped nil, scripted SafeFormatters (flagless directives). Oracle: fmt renders the same shape with every leaf inside an extent wrapper (sentinel + fmt.FormatString forwarding); from it T (full text) and S (unsafe extents reduced to their line feeds) are read off, and strip(out) == esc(T), delEnv(out) == esc(S). Non-trivial = at least one safe and one unsafe leaf and (nesting or a flag/width/precision/non-v verb). Distinct = distinct specs (64-bit fingerprint).",
     "C06": "rapid: x from the full value universe (1/2 of the cases) or the fmt-compatible one, including scripted Formatters that discover the SafePrinter behind their fmt.State and scripted SafeFormatters, both calling back through Print/Printf/Safe*/Unsafe*/Write with recursive operands, SafeValues, registered types, library-produced RedactableStrings, errors with an error hook installed; a directive without '*'; a wrapper chain W1(W2(W3(x))) of length 1-3; placed at top level, in a []interface{}, in an exported struct field or as a map value. Oracle: N - the chain prints exactly like W1(x); U1 - under an outermost Unsafe nothing of the rendering is outside envelopes (only the container's brackets and line feeds); U2 - at top level, for fmt-compatible x, the stripped text is what fmt prints for x; S1 - under an outermost Safe, for fmt-compatible x without classification of its own, no envelope and exactly fmt's characters (top level and in a slice); H - with a hook installed Unsafe(err) prints as without and the hook is not called. Non-trivial = x is itself classified (SafeValue, Safe-wrapped, registered, redactable, SafeFormatter, hooked error) or its method re-enters the printer. Distinct = distinct specs (64-bit fingerprint).",
     "C17": "rapid: configuration (hook installed with probability 0.9: a scripted function over the SafeWriter-op universe that can also emit the verb and err.Error(); registered safe types) x error values (value/pointer/errors.New/named-kind errors, wrapping, nil-receiver, error+Stringer, error+Formatter, error+SafeFormatter, error+SafeMessager) x positions (top level under every verb and flag incl. invalid and non-ASCII verbs, %T/%p, the %w of HelperForErrorf, []interface{}, []error, map values, exported and unexported struct fields, pointer to struct, arrays, reflect.Value, under Safe(), under Unsafe()) x routes (Sprint, Sprintf, Fprintf, HelperForErrorf). Oracle: output with the hook == output of the same shape with every dispatched error replaced by an error+SafeFormatter stand-in whose SafeFormat runs the hook's script (both shapes share all other objects); the hook is not called in the stand-in run (i.e. never for SafeFormatter/SafeMessager errors, %T/%p, unexported fields, under Unsafe()); the multiset of (error, verb) hook calls equals the stand-in's SafeFormat calls and their number equals the number of dispatched positions; Unsafe(err) prints as without hook and fully enveloped. Non-trivial = hook installed, at least one dispatched error, and not bare top-level %v. Distinct = distinct specs (64-bit fingerprint).",
     "C08": "rapid: histories of 1-6 steps starting from a library-produced redactable r0 (Sprint/Sprintf of generated operands: envelopes, line feeds, escaped markers, empty); each step applies one of 31 re-print / join / container compositions (Sprint, Sprint of ToBytes, Sprintf with literals around any directive except %T/%p incl. flags, width, precision, '*', odd verbs; reflect.ValueOf; Safe(); Join/JoinTo with safe or unsafe delimiters on a builder and on a SafePrinter; StringBuilder.Print/Printf; printing a StringBuilder by value and by pointer; SafePrinter.Print/Printf; []RedactableString, [2]RedactableString, []interface{}, map values, struct fields exported / unexported / interface-typed, pointer to struct, %+v, %#v) and the result becomes the next r. Oracle per step: the result equals the literal concatenation of its pieces (identity for re-printing), and Redact / StripMarkers applied to the result equal the concatenation of their application to the pieces. Non-trivial = the redactable contains an envelope, an escaped marker or a line feed and the step is not bare %v/Sprint. Distinct = distinct specs (64-bit fingerprint).",
@@ -185,6 +194,12 @@ HOOK_COMMITS = ["cf350cc"]
 NOT_APPLICABLE = {}
 
 CLAIMS = {
+    "C05": {
+        "text": "Differential against fmt with leaf extents: the expected placement of every character comes from fmt's own rendering of the same format and shape, in which each leaf is bracketed by sentinels through a forwarding Formatter; two equalities (stripped text, text outside envelopes) then pin that exactly the unsafe leaves' complete renderings (padding, sign, quotes, prefixes) are enveloped and everything else is not. All subsets of registered types are visited (registry reset per case). Exploration; found and repaired F10 (registered types with methods in interface slots) and, with C06, F8.",
+        "design_ref": "DESIGN.md §4.5",
+        "note": "Leaves must be atomic under the directive that reaches them: named basic kinds for method-bearing nested leaves; complex numbers and []byte under %v/%d are containers of leaves with structural punctuation and are not used as leaves; %T/%p are outside (type and address are public); SafeFormatter leaves only under flagless directives (their SafeInt/SafeFloat inherit the active flags, which the property does not speak about). Trusted: fmt.FormatString round-trips the directive (no '*').",
+        "technique": "rapid property-based differential testing against fmt with sentinel-delimited leaf extents, over all registry configurations",
+    },
     "C06": {
         "text": "Generated wrapper chains around generated values and user programs (including formatters that call back into the printer), judged by validity predicates (all inside / none inside envelopes), a differential against fmt for the characters, and a metamorphic relation (the chain equals its outermost wrapper). Exploration; found and repaired F3 (nested printers dropped the override) and F8 (wrappers below the top-level operand).",
         "design_ref": "DESIGN.md §4.6",
